@@ -118,6 +118,15 @@ CLAIMED["C06"] = dict(
     technique="symbolic co-execution of source and converted text under CrossHair (z3)",
 )
 
+CLAIMED["C15"] = dict(
+    category="other",
+    text="Partial, bounds stated: (1) z3 table queries over syntax tables - every text produced on hosts 3.10-3.13 by the custom unparser (complete (slot x kind) catalogue, 4 160 f-string shapes) and by both unparsers for the converted programs x 8 options is compiled by each runtime binary 3.8-3.13 (sources restricted to what 3.8 compiles and to trees valid on the host); (2) concrete co-execution replays of every distinct converted text on each runtime binary (not solver-decided, labelled so); (3) CrossHair co-execution on the second interpreter it exists for (3.11) with text produced by a 3.11 host.",
+    design_ref="DESIGN.md section 4, C15",
+    note="The deciding step of the syntax tables is each interpreter's compile(); semantics on 3.8/3.9/3.10/3.13 only by concrete replays with 4 fixed valuations; 3.14 outside the bound. Known findings: ast.unparse quote re-use on 3.12+ hosts, nested f-string quote depth in the custom unparser (explicit rows).",
+    technique="z3 queries over syntax tables built with the six interpreter binaries + CrossHair (z3) co-execution on 3.11 + concrete replays on the other runtimes",
+    engine="z3 tables + crosshair(3.11) + interpreter binaries",
+)
+
 NOT_YET = {}
 
 NOT_APPLICABLE = {
